@@ -1,7 +1,7 @@
 (* C14 -- the liveness monitor closes dead sessions and only dead sessions.
    Model: Model/Heartbeat.v (the heartbeat task of start_client after the repair of D9: a deadline per
    outstanding keep-alive request). T = timeout, I = interval (ms); the command line accepts every pair of
-   positive whole seconds (GeneratedFacts.cli_positive_seconds), the theorems cover every Z. *)
+   positive whole seconds (FactsTimed.cli_positive_seconds), the theorems cover every Z. *)
 From Coq Require Import List NArith ZArith Bool Lia.
 From AnyTLS Require Import Generated Pool Heartbeat HeartbeatProofs HeartbeatSimProofs TimedLegacy.
 Import ListNotations.
